@@ -152,6 +152,40 @@ def projections(ctx, rep, clause):
     rep.floor('PROJ', 'alternative return types compared', n, 5)
 
 
+def loss_sequence(ctx, rep, clause):
+    """applicable losses are decided on the bare residues of the fragment (never on the serialized text, whose
+    modification names contain letters the loss patterns would match)"""
+    program = ctx.program
+    f = program.func(BUILD)
+    aliases = single_assignments(f)
+    calls = [n for n in walk_own(f.node) if isinstance(n, ast.Call) and isinstance(n.func, ast.Name) and
+             n.func.id == 'get_losses']
+    if len(calls) != 1:
+        raise AnalysisError('_build_fragments: get_losses call not found')
+    c = calls[0]
+    arg = None
+    for kw in c.keywords:
+        if kw.arg == 'sequence':
+            arg = kw.value
+    if arg is None and c.args:
+        arg = c.args[0]
+    got = inline(arg, aliases) if arg is not None else '?'
+    ob(rep, 'PROJ', BUILD, 'losses are matched against the residues of the fragment', 
+       got == 'annotation.slice(span[0], span[1]).sequence', got,
+       f'get_losses receives `{got}`: loss patterns are matched against something other than the bare residues of '
+       f'the span (modification names would trigger losses)', f.loc(c), clause)
+    ok_frag = False
+    for n in walk_own(f.node):
+        if isinstance(n, ast.Call) and isinstance(n.func, ast.Name) and n.func.id == 'Fragment':
+            kws = {kw.arg: kw.value for kw in n.keywords}
+            seq = inline(kws['sequence'], aliases) if 'sequence' in kws else ''
+            un = inline(kws['unmod_sequence'], aliases) if 'unmod_sequence' in kws else ''
+            ok_frag = seq == 'annotation.slice(span[0], span[1]).serialize()' and \
+                un == 'annotation.slice(span[0], span[1]).sequence'
+    ob(rep, 'PROJ', BUILD, 'Fragment.sequence / unmod_sequence are the serialized / bare slice of the span', ok_frag,
+       'slice(span[0], span[1])', 'the fragment sequence fields are not the slice of the span', f.loc(), clause)
+
+
 def return_type_branches(f: FuncInfo) -> Dict[str, List[ast.stmt]]:
     out: Dict[str, List[ast.stmt]] = {}
     for n in walk_own(f.node):
@@ -341,6 +375,7 @@ def check(ctx, rep):
     rep.explanation = EXPLANATION
     an, program = ctx.analyzer, ctx.program
     projections(ctx, rep, 'C04a')
+    loss_sequence(ctx, rep, 'C04a')
     exhaustive(ctx, rep, 'C04b')
     fragmenter_projection(ctx, rep, 'C04c')
     callers = {f.fq for f in program.all_functions() if f.module.name == FR}
